@@ -46,6 +46,28 @@ def _chunk(args):
     return out
 
 
+def _lean_pigeonhole(thorough):
+    """the counting step of the top_k contract is a Lean 4 / Mathlib theorem; Lean re-checks it in the thorough tier"""
+    import hashlib, os, shutil, subprocess, time
+    fn = os.path.join(core.VERIF, 'lean', 'Pigeonhole.lean')
+    info = {'file': 'lean/Pigeonhole.lean', 'theorem': 'topk_no_bot', 'sha256_16': hashlib.sha256(open(fn, 'rb').read()).hexdigest()[:16],
+            'uses_sorry': 'sorry' in open(fn).read().split('-/', 1)[-1]}
+    if not thorough:
+        info['checked'] = 'not in this tier (about 2 minutes: import Mathlib); run ./check C02 --tier thorough'
+        return info
+    if shutil.which('lean') is None:
+        info['checked'] = 'lean not on PATH'
+        return info
+    t0 = time.time()
+    try:
+        p = subprocess.run(['lean', fn], capture_output=True, text=True, timeout=1500, cwd=os.path.dirname(fn))
+        out = (p.stdout + p.stderr).strip()
+        info.update({'checked': p.returncode == 0 and 'error' not in out and 'sorry' not in out, 'exit': p.returncode, 'output': out[-400:], 'seconds': round(time.time() - t0, 1)})
+    except subprocess.TimeoutExpired:
+        info['checked'] = 'timeout'
+    return info
+
+
 def run(ctx):
     thorough = ctx.tier == 'thorough'
     ctx.level = 'other'
@@ -59,9 +81,9 @@ def run(ctx):
         'non-zero probability, last_chars[p] is the last symbol of prefix p, and Pb[p] <= CTCB(t, prefix p), Pnb[p] <= CTCNB(t, prefix p)" '
         'where CTCB / CTCNB are the textbook CTC prefix-probability recurrences (ending in blank / non-blank) — hence pairwise distinct transcripts and '
         'vis score <= CTC log-probability of the transcript for EVERY matrix, beam width and pre-selection; ValueError iff the '
-        'normalisation deviation exceeds the tolerance.  ASSUMED contracts (listed under trusted_base, validated by the bounded tier): '
-        'multisort.top_k (k largest cells, pairwise different), the configurable pre-selection (strictly increasing positions), blank has '
-        'non-zero probability in every frame.  BOUNDED stand-in for the numeric clauses: the run-time contract of the decoder — '
+        'normalisation deviation exceeds the tolerance; (4) multisort.top_k itself (k pairwise different cells, each at least every cell not returned) from '
+        'models of ravel / argpartition / unravel_index, its counting consequence in Lean.  ASSUMED (listed under trusted_base, validated by the '
+        'bounded tier): the configurable pre-selection returns strictly increasing positions, blank has non-zero probability in every frame.  BOUNDED stand-in for the numeric clauses: the run-time contract of the decoder — '
         'vis_sc <= CTC log-probability (also proved, see above), exact bag when nothing is pruned, equality with a reference frame-synchronous k-best prefix beam '
         'search (cases whose k-th place is tied are compared on the weaker clauses only), rejection of unnormalised input — is evaluated '
         'on the real decoder for every matrix of a finite grid.  Spec functions: CTC alpha recursion validated against explicit '
@@ -71,7 +93,10 @@ def run(ctx):
     from contracts import decoders as DC
     reps = vrun.verify(DC.KEYS, DC.CONTRACTS, root=core.repo_root(), both=thorough)
     ctx.add_proof_reports(reps, clause='per-frame recurrences, prefix bookkeeping, distinct-prefix invariant of the beam loop')
-    ctx.trusted += ['ASSUMED contract: multisort.top_k(a, k, reverse=True) returns k pairwise different cells, each >= every cell not returned (numpy argpartition / unravel_index are outside the modelled subset)',
+    ctx.extra['lean_pigeonhole'] = _lean_pigeonhole(thorough)
+    if ctx.extra['lean_pigeonhole'].get('uses_sorry') or (thorough and ctx.extra['lean_pigeonhole'].get('checked') is not True):
+        ctx.undecided.append('lean/Pigeonhole.lean (counting step of the top_k contract) was not confirmed by Lean: %r' % (ctx.extra['lean_pigeonhole'],))
+    ctx.trusted += ['multisort.top_k is PROVED from models of ravel / np.argpartition / np.unravel_index (pyvc.lib); the counting consequence "k <= number of finite cells => no returned cell is -inf" is lean/Pigeonhole.lean::topk_no_bot (checked by Lean in the thorough tier; quick tier records the file hash)',
                     'ASSUMED contract: the pre-selection callable returns strictly increasing positions of the row',
                     'ASSUMED input property: blank has non-zero probability in every frame; no +inf log-probabilities',
                     'decoder proved in the configuration without a language model (self._lm is None, model_eos = return_h = False)']
